@@ -792,9 +792,6 @@ func sortStrings(s []string) {
 	}
 }
 
-// a decoder that trusts a hostile length field should die inside this check, not take the machine down
-func init() { ev.MemLimitGB = 24 }
-
 func main() {
 	if len(os.Args) > 2 && os.Args[1] == "replay" {
 		replay(os.Args[2])
